@@ -106,13 +106,17 @@ Switch(p, c) == c.cv # p.cv
 Birth(p, c)  == c.nv # 0 /\ (p.nv = 0 \/ Switch(p, c))   \* c is the first header carrying a proposal (a switch consumes p's)
 Cont(p, c)   == ~Switch(p, c) /\ p.nv # 0 /\ c.nv # 0     \* the proposal of p is still alive in c
 
-PairClauses == {"SwitchOnlyWithQuorum", "SwitchAtAnnouncedRound", "MinWaitRespected", "WindowLength",
+PairClauses == {"SwitchOnlyWithQuorum", "SwitchAtAnnouncedRound", "SwitchConsumesProposal", "MinWaitRespected", "WindowLength",
                 "ApprovalStep", "ApprovalInWindow", "WindowImmutable", "FailedProposalDropped"}
 
 \* "changes only ... [by] a proposal that collected at least the approval threshold"
 SwitchOnlyWithQuorum(P, p, c)   == Switch(p, c) => (p.nv # 0 /\ c.cv = p.nv /\ p.ap >= P.th)
 \* "changes only at the round announced"
 SwitchAtAnnouncedRound(P, p, c) == Switch(p, c) => (p.nv # 0 /\ c.n = p.so)
+\* the block that switches carries no proposal: "its voting window", "the minimum waiting period" are those of the version that
+\* is active when the proposal is first seen; a proposal inside the switching block would belong to neither version's rules
+\* (interpretation note; the verifier demands cleared fields there)
+SwitchConsumesProposal(P, p, c) == Switch(p, c) => c.nv = 0
 \* "never earlier than the minimum waiting period after the window closes": the announced switch round respects it
 \* (with WindowImmutable and SwitchAtAnnouncedRound this gives the chain-level clause)
 MinWaitRespected(P, p, c)       == Birth(p, c) => c.so >= c.vb + P.minw
@@ -131,6 +135,7 @@ FailedProposalDropped(P, p, c)  == (~Switch(p, c) /\ p.nv # 0 /\ c.n >= p.vb /\ 
 Holds(name, P, p, c) ==
   CASE name = "SwitchOnlyWithQuorum"   -> SwitchOnlyWithQuorum(P, p, c)
     [] name = "SwitchAtAnnouncedRound" -> SwitchAtAnnouncedRound(P, p, c)
+    [] name = "SwitchConsumesProposal" -> SwitchConsumesProposal(P, p, c)
     [] name = "MinWaitRespected"       -> MinWaitRespected(P, p, c)
     [] name = "WindowLength"           -> WindowLength(P, p, c)
     [] name = "ApprovalStep"           -> ApprovalStep(P, p, c)
@@ -139,7 +144,8 @@ Holds(name, P, p, c) ==
     [] name = "FailedProposalDropped"  -> FailedProposalDropped(P, p, c)
 
 SafeStep(P, p, c) ==
-   /\ SwitchOnlyWithQuorum(P, p, c) /\ SwitchAtAnnouncedRound(P, p, c) /\ MinWaitRespected(P, p, c)
+   /\ SwitchOnlyWithQuorum(P, p, c) /\ SwitchAtAnnouncedRound(P, p, c) /\ SwitchConsumesProposal(P, p, c)
+   /\ MinWaitRespected(P, p, c)
    /\ WindowLength(P, p, c) /\ ApprovalStep(P, p, c) /\ ApprovalInWindow(P, p, c)
    /\ WindowImmutable(P, p, c) /\ FailedProposalDropped(P, p, c)
 
